@@ -50,11 +50,16 @@ static void *fenced(size_t n, int heap){
   for (i = 0; i < nblk; i++) if (!blk[i].base) break;
   if (i == nblk){ if (nblk == MAXBLK) fail("SETUP", "too many blocks"); nblk++; }
   blk[i].base = base; blk[i].maplen = data + pg; blk[i].ptr = p; blk[i].n = n; blk[i].heap = heap;
+  { size_t k; for (k = n; k < used; k++) p[k] = (char)0xA5; }      /* alignment slack of heap blocks carries a canary */
   return p;
 }
+/* a store beyond a heap block that stays inside its 16-byte alignment slack does not reach the guard page: the canary shows it */
+static void slack_check(int i){ size_t k, used = (blk[i].n + 15) / 16 * 16; if (!blk[i].heap) return;
+  for (k = blk[i].n; k < used; k++) if (blk[i].ptr[k] != (char)0xA5) fail("MEM", "store beyond the end of a heap block (alignment slack overwritten)"); }
+static void slack_check_all(void){ int i; for (i = 0; i < nblk; i++) if (blk[i].base) slack_check(i); }
 static int find_blk(const void *p){ int i; for (i = 0; i < nblk; i++) if (blk[i].base && (const char *)p >= blk[i].ptr && (const char *)p < blk[i].ptr + (blk[i].n ? blk[i].n : 1)) return i; return -1; }
-void *uk_malloc(size_t n){ live++; return fenced(n, 1); }
-void uk_free(void *p){ int i; if (!p) return; i = find_blk(p); if (i < 0 || !blk[i].heap || blk[i].ptr != (char *)p) fail("HEAP", "free of a pointer that is not the base of a live block of this manager"); live--; munmap(blk[i].base, blk[i].maplen); blk[i].base = 0; }
+void *uk_malloc(size_t n){ static int reg; if (!reg){ atexit(slack_check_all); reg = 1; } live++; return fenced(n, 1); }
+void uk_free(void *p){ int i; if (!p) return; i = find_blk(p); if (i < 0 || !blk[i].heap || blk[i].ptr != (char *)p) fail("HEAP", "free of a pointer that is not the base of a live block of this manager"); slack_check(i); live--; munmap(blk[i].base, blk[i].maplen); blk[i].base = 0; }
 long uk_live(void){ return live; }
 long uk_live_libc(void){ return libc_live; }
 long uk_libc_calls(void){ return libc_calls; }
